@@ -37,3 +37,9 @@ claim("C01",
       "Decides structural clauses of 'lexing and parsing never crash and always terminate': every index and slice over the source text, its rune/byte copies and the token slices in lexer and parser is proven in bounds on every path (sites safe only by a non-local reason are listed as not armed); the other rules (see evidence) cover loop exit at end of input, progress, reachable panics, missing operands and unguarded recursion. The time bound and the content of diagnostics are not decided.",
       "A-IDX-NONNEG (cursors from calls/fields are non-negative unless computed by subtraction); strings immutable; library models for strings.Index*/utf8.DecodeRune*; assumed table listed in evidence",
       "DESIGN.md §2 C01")
+
+claim("C20",
+      "classification of every range over a Go map by the order-sensitivity of its body and of the slices it fills; census of package-level variables written outside init",
+      "Decides two structural sources of non-determinism and cross-VM leakage in the interpreter core (lexer, parser, token, node, data, runtime, std/php, std/serializer/json): (1) every range over a Go map is order-insensitive by shape, has its result sorted, or is a listed finding; (2) every package-level variable written outside init is reviewed (reset per VM, write-once, host configuration) or a listed finding. Byte-identical output as a whole, time and randomness sources, and the ~40 map ranges in the wider stdlib are not decided.",
+      "Go's map iteration order is unspecified (language spec); order-insensitive shapes are enumerated in the evidence; calls inside a classified body are assumed not to print or evaluate script code unless they are the known entry points",
+      "DESIGN.md §2 C20")
